@@ -285,7 +285,8 @@ def run_scenario(scenario, _unused):
             o["language"] = lang
         if not shared["on"]:
             return ffcx.options.get_options(o)
-        key = json.dumps(o, sort_keys=True, default=str)
+        # (type and repr: np.dtype("float32") and "float32" are different option values)
+        key = json.dumps(o, sort_keys=True, default=lambda x: f"{type(x).__module__}.{type(x).__name__}:{x!r}")
         if key not in shared["maps"]:
             shared["maps"][key] = ffcx.options.get_options(o)
         return shared["maps"][key]
